@@ -496,7 +496,7 @@ func directed() []input {
 }
 
 func gen(r *hx.Rand, tier string) []json.RawMessage {
-	n, nbig := 450, 30
+	n, nbig := 400, 26
 	if tier == "thorough" {
 		n, nbig = 8000, 800
 	}
